@@ -44,6 +44,11 @@ def cells(tier):
                 out.append(dict(kind=kind, t="pair", deltas=[a, b], phase=ph))
         for d in (0.7, 1.5):
             out.append(dict(kind=kind, t="category", delta=d, phase=0.3))
+        # east and west of UTC: one phase, every delta and consumer mode
+        for tz in (9, -5):
+            for d in DELTAS:
+                for mode in MODES:
+                    out.append(dict(kind=kind, t="single", delta=d, phase=0.25, mode=mode, tz=tz))
         step = 0.05 if tier == "quick" else 0.01
         n = int(round(1.0 / step))
         for i in range(n):
@@ -52,6 +57,13 @@ def cells(tier):
 
 
 def execute(cell):
+    from ..vloop import local_zone
+
+    with local_zone(cell.get("tz", 0)):  # due times are naive local stamps
+        return _execute(cell)
+
+
+def _execute(cell):
     kind = cell["kind"]
     x = Exec(kind)
     w = x.world
